@@ -91,7 +91,9 @@ fn main() {
         .spawn(move || {
             // checks that do not touch generated subjects skip the registry (it matters under Miri, where building it takes minutes)
             let reg = if matches!(check.as_str(), "C10" | "C11" | "C16" | "C18probe") { sbase::Registry::new() } else { subjects::registry() };
-            let gen = GenCtx { tz_names: sbase::tz_names(), dst_edges: true, ..GenCtx::default() };
+            // the race detector's lane of C18 is about schedules, not sizes: no 70 000-element lists under a 10x slowdown
+            let allow_large = !(check == "C18" && lane == "tsan");
+            let gen = GenCtx { tz_names: sbase::tz_names(), dst_edges: true, allow_large, ..GenCtx::default() };
             let mut ctx = Ctx {
                 check: check.clone(),
                 tier,
